@@ -17,8 +17,8 @@ META = {
     'bounds': 'strings: |s| <= 2 (quick) / 3 (thorough) over all non-surrogate Unicode, plus |s| <= 2/3 over a 14-character '
               'alphabet containing lone surrogates, NUL, quotes, backslash, newlines, braces, BMP and astral characters; '
               'bytes: every single byte value, plus |b| <= 2/3 over a 12-value alphabet; quote styles: all 4 / all 15 '
-              'non-empty subsets of allowed quotes; PEP 701 on and off; constant folding: all 13 binary operators x 14 x 14 '
-              'operand kinds',
+              'non-empty subsets of allowed quotes; PEP 701 on and off; constant folding: all 13 binary operators x 18 x 18 '
+              'operand kinds (incl. unary operators over calls / names)',
     'outside': 'code reached inside ast.parse/compile (CPython, C); longer strings; the dead class ministring.MiniBytes '
                '(referenced nowhere - checked every run - and therefore never executed by minify())',
     'stubs': ['eval in python_minifier.ministring / python_minifier.f_string -> vf.rlit.eval_literal_text',
@@ -39,7 +39,12 @@ OPERAND_KINDS = [
     lambda: ast.Call(func=_name(), args=[], keywords=[]), lambda: ast.Attribute(value=_name(), attr='a', ctx=ast.Load()),
     lambda: ast.JoinedStr(values=[ast.Constant(value='t')]), lambda: ast.Tuple(elts=[ast.Constant(value=1)], ctx=ast.Load()),
     lambda: ast.BinOp(left=ast.Constant(value=1), op=ast.Add(), right=ast.Constant(value=2)),
+    lambda: ast.UnaryOp(op=ast.USub(), operand=ast.Call(func=_name(), args=[], keywords=[])),
+    lambda: ast.UnaryOp(op=ast.USub(), operand=ast.Constant(value=4)),
+    lambda: ast.UnaryOp(op=ast.Not(), operand=_name()),
+    lambda: ast.UnaryOp(op=ast.Invert(), operand=ast.Attribute(value=_name(), attr='a', ctx=ast.Load())),
 ]
+N_KINDS = len(OPERAND_KINDS)
 BINOPS = [lambda: ast.Add(), lambda: ast.Sub(), lambda: ast.Mult(), lambda: ast.Div(), lambda: ast.FloorDiv(), lambda: ast.Mod(),
           lambda: ast.Pow(), lambda: ast.LShift(), lambda: ast.RShift(), lambda: ast.BitOr(), lambda: ast.BitXor(),
           lambda: ast.BitAnd(), lambda: ast.MatMult()]
@@ -51,7 +56,7 @@ def _is_numlit(n):
 
 def fold_reach(kl: int, kr: int, op: int) -> bool:
     """
-    pre: 0 <= kl < 14 and 0 <= kr < 14 and 0 <= op < 13
+    pre: 0 <= kl < N_KINDS and 0 <= kr < N_KINDS and 0 <= op < 13
     post: _
     """
     return untraced(_fold_reach_impl, kl, kr, op)
@@ -99,7 +104,7 @@ def _fold_reach_impl(kl, kr, op):
 
 def fold_reach_twin(kl: int, kr: int, op: int) -> bool:
     """
-    pre: 0 <= kl < 14 and 0 <= kr < 14 and 0 <= op < 13
+    pre: 0 <= kl < N_KINDS and 0 <= kr < N_KINDS and 0 <= op < 13
     post: _
     """
     return untraced(_fold_reach_twin_impl, kl, kr, op)
@@ -129,7 +134,7 @@ def fold_reach_b(b0: bool, b1: bool, b2: bool, b3: bool, b4: bool, b5: bool, b6:
 
 
 def _fold_reach_b_impl(idx):
-    d = decode_index(idx, [14, 14, 13])
+    d = decode_index(idx, [N_KINDS, N_KINDS, 13])
     if d is None:
         return True
     return _fold_reach_impl(d[0], d[1], d[2])
@@ -240,7 +245,7 @@ def obligations(tier, seed):
                     shards=[['n <= %d' % n, 'qmask == %d' % qm] for qm in (15, 7, 6, 3, 1, 8)],
                     bounds='|b| <= %d over BYTE_ALPHA, 6 quote subsets' % n))
     obs.append(dict(name='C12.fold_reach', fn='fold_reach_b', timeout=t, shards=[['b11 == %s' % a, 'b10 == %s' % b] for a in (True, False) for b in (True, False)],
-                    bounds='14 x 14 operand kinds x 13 operators'))
+                    bounds='18 x 18 operand kinds x 13 operators'))
     obs.append(dict(name='C12.fold_reach.twin', fn='fold_reach_twin', timeout=t, shards=[['op == 0']], expect='refuted',
                     bounds='reachability twin'))
     return obs
